@@ -454,6 +454,37 @@ static void MACRO_OutProcessor(void) {
 /* - - - - - - - - - - - - - - - - - - - - - - - - - - - - - - - - - - - - */
 /* Von hier her kommen bei einem Makroaufruf die expandierten Zeilen */
 
+/* text to insert for a token found in a macro's body.  Every formal parameter
+   gets replaced: after SHIFT, the argument list may have become shorter than the
+   parameter list; the parameters that ran out of arguments are empty. */
+
+static char const* MACRO_TokenText(unsigned TokenNum, void* pUser) {
+    PInputTag PInp = (PInputTag)pUser;
+
+    if ((TokenNum >= 1) && (TokenNum <= (unsigned)PInp->Macro->ParamCount)) {
+        StringRecPtr Lauf = PInp->Params;
+        unsigned     z;
+
+        for (z = 1; (z < TokenNum) && Lauf; z++) {
+            Lauf = Lauf->Next;
+        }
+        return Lauf ? Lauf->Content : "";
+    }
+    if (HasAttrs && (TokenNum == ArgCntMax + 1)) {
+        return PInp->SaveAttr;
+    }
+    if (PInp->UsesNumArgs && (TokenNum == ArgCntMax + 2)) {
+        return PInp->NumArgs;
+    }
+    if (PInp->UsesAllArgs && (TokenNum == ArgCntMax + 3)) {
+        return PInp->AllArgs;
+    }
+    if (PInp->Macro->LocIntLabel && (TokenNum == ArgCntMax + 4)) {
+        return PInp->SaveLabel;
+    }
+    return NULL;
+}
+
 Boolean MACRO_Processor(PInputTag PInp, as_dynstr_t* p_dest) {
     StringRecPtr Lauf;
     int          z;
@@ -469,34 +500,9 @@ Boolean MACRO_Processor(PInputTag PInp, as_dynstr_t* p_dest) {
     }
     as_dynstr_copy_c_str(p_dest, Lauf->Content);
 
-    /* process parameters */
+    /* process parameters and special parameters in one pass */
 
-    /* process parameters: every formal parameter gets replaced.  After SHIFT,
-       the argument list may have become shorter than the parameter list; the
-       parameters that ran out of arguments are empty: */
-
-    Lauf = PInp->Params;
-    for (z = 1; z <= PInp->Macro->ParamCount; z++) {
-        ExpandLine(Lauf ? Lauf->Content : "", z, p_dest);
-        if (Lauf) {
-            Lauf = Lauf->Next;
-        }
-    }
-
-    /* process special parameters */
-
-    if (HasAttrs) {
-        ExpandLine(PInp->SaveAttr, ArgCntMax + 1, p_dest);
-    }
-    if (PInp->UsesNumArgs) {
-        ExpandLine(PInp->NumArgs, ArgCntMax + 2, p_dest);
-    }
-    if (PInp->UsesAllArgs) {
-        ExpandLine(PInp->AllArgs, ArgCntMax + 3, p_dest);
-    }
-    if (PInp->Macro->LocIntLabel) {
-        ExpandLine(PInp->SaveLabel, ArgCntMax + 4, p_dest);
-    }
+    ExpandLineTokens(p_dest, MACRO_TokenText, PInp);
 
     CurrLine    = PInp->StartLine;
     InMacroFlag = True;
@@ -1034,10 +1040,26 @@ static void ExpandSHIFT(void) {
 /* Diese Routine liefert bei der Expansion eines IRP-Statements die expan-
   dierten Zeilen */
 
+/* text to insert for a token found in the body of IRP/IRPN: the arguments of the
+   current iteration start at position ParZ of the list */
+
+static char const* IRP_TokenText(unsigned TokenNum, void* pUser) {
+    PInputTag    PInp    = (PInputTag)pUser;
+    unsigned     ParIter = PInp->ParIter == 0 ? 1 : PInp->ParIter;
+    StringRecPtr Lauf    = PInp->Params;
+    unsigned     z;
+
+    if ((TokenNum < 1) || (TokenNum > ParIter)) {
+        return NULL;
+    }
+    for (z = 1; (z < PInp->ParZ + TokenNum - 1) && Lauf; z++) {
+        Lauf = Lauf->Next;
+    }
+    return Lauf ? Lauf->Content : "";
+}
+
 Boolean IRP_Processor(PInputTag PInp, as_dynstr_t* p_dest) {
-    StringRecPtr Lauf;
-    int          z;
-    Boolean      Result;
+    Boolean Result;
 
     Result = True;
 
@@ -1066,17 +1088,10 @@ Boolean IRP_Processor(PInputTag PInp, as_dynstr_t* p_dest) {
     as_dynstr_copy_c_str(p_dest, PInp->LineRun->Content);
     PInp->LineRun = PInp->LineRun->Next;
 
-    /* expand iteration parameter */
+    /* expand iteration parameter(s) in one pass */
 
-    Lauf = PInp->Params;
-    for (z = 1; z <= PInp->ParZ - 1; z++) {
-        Lauf = Lauf->Next;
-    }
     int ParIter = PInp->ParIter == 0 ? 1 : PInp->ParIter;
-    for (z = 1; z <= ParIter; z++) {
-        ExpandLine(Lauf->Content, z, p_dest);
-        Lauf = Lauf->Next;
-    }
+    ExpandLineTokens(p_dest, IRP_TokenText, PInp);
 
     /* end of body? then reset to line 1 and exit if this was the last iteration */
 
